@@ -1,3 +1,325 @@
 package main
 
-func cmdRace(args []string) int { return 2 }
+import (
+	"encoding/json"
+	"flag"
+	"fmt"
+	"go/ast"
+	"go/parser"
+	"go/token"
+	"math/rand"
+	nurl "net/url"
+	"os"
+	"path/filepath"
+	"runtime"
+	"sort"
+	"strings"
+	"sync"
+
+	distiller "github.com/markusmobius/go-domdistiller"
+	"golang.org/x/net/html"
+)
+
+// vdrive race: the concurrent driver of C12. Built with -race by the orchestrator.
+// Goroutines call Apply concurrently - on distinct documents, on one shared tree,
+// with a shared Options value, with all log flags - and every result digest is
+// compared with the digest of the same call run alone beforehand. Data races are
+// reported by Go's race detector (GORACE log_path is set by the orchestrator).
+
+type raceJob struct {
+	doc  int
+	tree *html.Node
+	opts *distiller.Options
+	solo string
+	key  string
+	mode string
+	run  int
+	snap string
+}
+
+func digestOf(res *distiller.Result, err error) string {
+	if err != nil || res == nil {
+		return "err"
+	}
+	d := digestResult(res)
+	return d["core"] + "/" + d["pagination"]
+}
+
+func cmdRace(args []string) int {
+	fs := flag.NewFlagSet("race", flag.ExitOnError)
+	seed := fs.Int64("seed", 1, "seed")
+	rounds := fs.Int("rounds", 4, "rounds per mode")
+	gor := fs.Int("goroutines", 16, "goroutines per round")
+	out := fs.String("out", "", "trace file")
+	fs.Parse(args)
+	r := rand.New(rand.NewSource(*seed*7919 + 3))
+	w, err := newTraceWriter(*out)
+	if err != nil {
+		fmt.Fprintln(realStderr, err)
+		return 2
+	}
+	defer w.close()
+
+	pageURL, _ := nurl.Parse("https://example.com/story/view?pg=2")
+	mkOpts := func(i int, shared *distiller.Options) *distiller.Options {
+		if shared != nil {
+			return shared
+		}
+		o := &distiller.Options{OriginalURL: pageURL}
+		if i%2 == 1 {
+			o.PaginationAlgo = distiller.PageNumber
+		}
+		if i%5 == 4 {
+			o.LogFlags = logFlags(15)
+		}
+		return o
+	}
+	pages := map[int]string{}
+	pageOf := func(d int) string {
+		if p, ok := pages[d]; ok {
+			return p
+		}
+		g := newDocGen(*seed, d)
+		p := richDoc(d, g)
+		pages[d] = p
+		return p
+	}
+	parse := func(d int) *html.Node {
+		n, _ := html.Parse(strings.NewReader(pageOf(d)))
+		return n
+	}
+	soloCache := map[string]string{}
+	solo := func(d int, o *distiller.Options) string {
+		algo, logf := 0, 0
+		if o != nil {
+			algo, logf = int(o.PaginationAlgo), int(o.LogFlags)
+		}
+		k := fmt.Sprintf("%d|%d|%d", d, algo, logf)
+		if v, ok := soloCache[k]; ok {
+			return v
+		}
+		res, err := distiller.Apply(parse(d), o)
+		v := digestOf(res, err)
+		soloCache[k] = v
+		return v
+	}
+
+	run := 0
+	total, mismatches := 0, 0
+	modes := []string{"distinct", "sharedtree", "sharedopts", "alllogs", "sharedall"}
+	for _, procs := range []int{2, runtime.NumCPU()} {
+		runtime.GOMAXPROCS(procs)
+		for _, mode := range modes {
+			for round := 0; round < *rounds; round++ {
+				var jobs []*raceJob
+				var sharedTree *html.Node
+				var sharedOpts *distiller.Options
+				sharedDoc := r.Intn(nRichDocs * 3)
+				if mode == "sharedtree" || mode == "sharedall" {
+					sharedTree = parse(sharedDoc)
+				}
+				if mode == "sharedopts" || mode == "sharedall" {
+					sharedOpts = &distiller.Options{OriginalURL: pageURL, LogFlags: logFlags(r.Intn(16))}
+				}
+				for i := 0; i < *gor; i++ {
+					run++
+					j := &raceJob{run: run, mode: mode}
+					if sharedTree != nil {
+						j.doc, j.tree = sharedDoc, sharedTree
+					} else {
+						j.doc = r.Intn(nRichDocs * 3)
+						j.tree = parse(j.doc)
+					}
+					j.opts = mkOpts(i, sharedOpts)
+					if mode == "alllogs" {
+						j.opts = &distiller.Options{OriginalURL: pageURL, LogFlags: logFlags(15)}
+					}
+					j.solo = solo(j.doc, j.opts)
+					j.snap = snapshotTree(j.tree)
+					jobs = append(jobs, j)
+				}
+				results := make([]string, len(jobs))
+				var wg sync.WaitGroup
+				start := make(chan struct{})
+				for i, j := range jobs {
+					wg.Add(1)
+					go func(i int, j *raceJob) {
+						defer wg.Done()
+						<-start
+						defer func() {
+							if rec := recover(); rec != nil {
+								results[i] = fmt.Sprint("panic: ", rec)
+							}
+						}()
+						res, err := distiller.Apply(j.tree, j.opts)
+						results[i] = digestOf(res, err)
+					}(i, j)
+				}
+				close(start)
+				wg.Wait()
+				for i, j := range jobs {
+					same := results[i] == j.solo
+					treesame := snapshotTree(j.tree) == j.snap
+					total++
+					if !same || !treesame {
+						mismatches++
+					}
+					w.emit(Event{"ev": "ConcCall", "run": j.run, "mode": mode, "procs": procs, "doc": j.doc,
+						"same": same, "treesame": treesame, "panicked": strings.HasPrefix(results[i], "panic")})
+				}
+			}
+		}
+	}
+	b, _ := json.Marshal(map[string]int{"calls": total, "mismatches": mismatches})
+	fmt.Println(string(b))
+	return 0
+}
+
+// ---- static scan: writes to package-level variables outside init ------------
+
+type globalWrite struct {
+	Pos  string `json:"pos"`
+	Var  string `json:"var"`
+	Kind string `json:"kind"`
+}
+
+// cmdScan lists every statement that writes (assigns, increments, appends into,
+// deletes from, sends on ...) a package-level variable of the repository outside an
+// init function and outside the variable's own declaration. It is the assumption
+// check behind the model's "package-level state is constant after initialisation".
+func cmdScan(args []string) int {
+	fs := flag.NewFlagSet("scan", flag.ExitOnError)
+	repo := fs.String("repo", "/repo", "repository root")
+	fs.Parse(args)
+	var writes []globalWrite
+	fset := token.NewFileSet()
+	filepath.Walk(*repo, func(path string, info os.FileInfo, err error) error {
+		if err != nil || !info.IsDir() {
+			return nil
+		}
+		base := filepath.Base(path)
+		if base == ".git" || base == "example" || base == "scripts" || base == "testutil" || base == "vtrace" {
+			return filepath.SkipDir
+		}
+		pkgs, err := parser.ParseDir(fset, path, func(fi os.FileInfo) bool {
+			return !strings.HasSuffix(fi.Name(), "_test.go")
+		}, 0)
+		if err != nil {
+			return nil
+		}
+		for _, pkg := range pkgs {
+			// package-level variable names
+			globals := map[string]bool{}
+			for _, f := range pkg.Files {
+				for _, d := range f.Decls {
+					if gd, ok := d.(*ast.GenDecl); ok && gd.Tok == token.VAR {
+						for _, sp := range gd.Specs {
+							for _, n := range sp.(*ast.ValueSpec).Names {
+								globals[n.Name] = true
+							}
+						}
+					}
+				}
+			}
+			for _, f := range pkg.Files {
+				for _, d := range f.Decls {
+					fd, ok := d.(*ast.FuncDecl)
+					if !ok || fd.Body == nil || (fd.Name.Name == "init" && fd.Recv == nil) {
+						continue
+					}
+					// locals shadowing globals: collect names declared in the function
+					shadow := map[string]bool{}
+					if fd.Type.Params != nil {
+						for _, p := range fd.Type.Params.List {
+							for _, n := range p.Names {
+								shadow[n.Name] = true
+							}
+						}
+					}
+					if fd.Recv != nil {
+						for _, p := range fd.Recv.List {
+							for _, n := range p.Names {
+								shadow[n.Name] = true
+							}
+						}
+					}
+					ast.Inspect(fd.Body, func(n ast.Node) bool {
+						switch st := n.(type) {
+						case *ast.AssignStmt:
+							if st.Tok == token.DEFINE {
+								for _, l := range st.Lhs {
+									if id, ok := l.(*ast.Ident); ok {
+										shadow[id.Name] = true
+									}
+								}
+							}
+						case *ast.ValueSpec:
+							for _, id := range st.Names {
+								shadow[id.Name] = true
+							}
+						case *ast.RangeStmt:
+							if st.Tok == token.DEFINE {
+								for _, l := range []ast.Expr{st.Key, st.Value} {
+									if id, ok := l.(*ast.Ident); ok {
+										shadow[id.Name] = true
+									}
+								}
+							}
+						}
+						return true
+					})
+					rootIdent := func(e ast.Expr) *ast.Ident {
+						for {
+							switch x := e.(type) {
+							case *ast.Ident:
+								return x
+							case *ast.IndexExpr:
+								e = x.X
+							case *ast.SelectorExpr:
+								e = x.X
+							case *ast.StarExpr:
+								e = x.X
+							case *ast.ParenExpr:
+								e = x.X
+							default:
+								return nil
+							}
+						}
+					}
+					note := func(e ast.Expr, kind string) {
+						if id := rootIdent(e); id != nil && globals[id.Name] && !shadow[id.Name] {
+							writes = append(writes, globalWrite{Pos: strings.TrimPrefix(fset.Position(e.Pos()).String(), *repo+"/"), Var: id.Name, Kind: kind})
+						}
+					}
+					ast.Inspect(fd.Body, func(n ast.Node) bool {
+						switch st := n.(type) {
+						case *ast.AssignStmt:
+							if st.Tok != token.DEFINE {
+								for _, l := range st.Lhs {
+									note(l, "assign")
+								}
+							}
+						case *ast.IncDecStmt:
+							note(st.X, "incdec")
+						case *ast.SendStmt:
+							note(st.Chan, "send")
+						case *ast.CallExpr:
+							if id, ok := st.Fun.(*ast.Ident); ok && id.Name == "delete" && len(st.Args) > 0 {
+								note(st.Args[0], "delete")
+							}
+						}
+						return true
+					})
+				}
+			}
+		}
+		return nil
+	})
+	sort.Slice(writes, func(i, j int) bool { return writes[i].Pos < writes[j].Pos })
+	if writes == nil {
+		writes = []globalWrite{}
+	}
+	b, _ := json.Marshal(map[string]interface{}{"writes": writes})
+	fmt.Println(string(b))
+	return 0
+}
